@@ -31,7 +31,9 @@ MODTEST2FN = {(FN2MOD.get(k, "qartod"), v): k for k, v in FN2TEST.items()}
 def fn_of(module, test):
     return MODTEST2FN.get((module, test), test)
 FRONTENDS = ["pandas", "pandas_idx", "numpy_dict", "numpy_arr", "xarray", "xarray_var", "netcdf_ds", "netcdf_path",
-             "qcconfig"]
+             "qcconfig", "pandas_named", "xarray_named", "netcdf_named", "qcconfig_bare"]
+# the *_named front ends use non-default column / variable names for the axes and pass them to the stream
+NAMED = {"time": "obs_time", "z": "depth", "lat": "y", "lon": "x"}
 
 PROBE_LOG = []
 RUN_LOG = []
@@ -153,30 +155,33 @@ def has_time(table):
     return table.get("hastime", True)
 
 
-def frame(table, idx=False):
-    d = {"time": times(table)} if has_time(table) else {}
+def frame(table, idx=False, names=None):
+    nm = names or {}
+    d = {nm.get("time", "time"): times(table)} if has_time(table) else {}
     for k, v in table["data"].items():
         d[k] = fl(v)
     for k in ("z", "lat", "lon"):
         if table[k]:
-            d[k] = fl(table[k])
+            d[nm.get(k, k)] = fl(table[k])
     df = pd.DataFrame(d)
     if idx:
         df.index = [100 + 10 * i for i in range(len(df))]
     return df
 
 
-def dataset(table, time_coord=True):
+def dataset(table, time_coord=True, names=None):
+    nm = names or {}
     n = len(table["t"])
     if not has_time(table):
         time_coord = False
-    dim = "time" if time_coord else "obs"
+    tname = nm.get("time", "time")
+    dim = tname if time_coord else "obs"
     dv = {k: ((dim,), fl(v)) for k, v in table["data"].items()}
     for k in ("z", "lat", "lon"):
         if table[k]:
-            dv[k] = ((dim,), fl(table[k]))
+            dv[nm.get(k, k)] = ((dim,), fl(table[k]))
     if time_coord:
-        return xr.Dataset(dv, coords={"time": times(table)})
+        return xr.Dataset(dv, coords={tname: times(table)})
     if has_time(table):
         dv["time"] = ((dim,), times(table))
     return xr.Dataset(dv, coords={"obs": np.arange(n)})
@@ -184,6 +189,10 @@ def dataset(table, time_coord=True):
 
 def applicable(frontend, table, config):
     streams = {e["stream"] for c in config for e in c["entries"]}
+    if frontend == "qcconfig_bare":
+        # the legacy single-stream usage: a bare module mapping, no contexts / windows at all
+        return (len(config) == 1 and config[0]["win"] == [NA, NA] and len(streams) == 1
+                and list(streams)[0] in table["data"])
     if frontend in ("numpy_arr", "qcconfig"):
         return len(streams) == 1 and list(streams)[0] in table["data"]
     return True
@@ -194,6 +203,12 @@ def make_stream(frontend, table, config, workdir):
         return PandasStream(frame(table))
     if frontend == "pandas_idx":
         return PandasStream(frame(table, idx=True))
+    if frontend == "pandas_named":
+        return PandasStream(frame(table, names=NAMED), **NAMED)
+    if frontend == "xarray_named":
+        return XarrayStream(dataset(table, True, names=NAMED), **NAMED)
+    if frontend == "netcdf_named":
+        return NetcdfStream(dataset(table, True, names=NAMED), **NAMED)
     kw = {"time": times(table)} if has_time(table) else {}
     for k in ("z", "lat", "lon"):
         if table[k]:
@@ -265,13 +280,16 @@ def run_frontend(frontend, table, config, workdir, form="iso", max_orders=3, rng
     ev = [{"ev": "load", "table": table, "config": config, "frontend": frontend}]
     del PROBE_LOG[:]
     del RUN_LOG[:]
-    if frontend == "qcconfig":
+    if frontend in ("qcconfig", "qcconfig_bare"):
         sid = [e["stream"] for c in config for e in c["entries"]][0]
         import warnings
         try:
             with warnings.catch_warnings():
                 warnings.simplefilter("ignore")
-                qc = qc_config.QcConfig(config_dict(config, form), default_stream_key=sid)
+                cd = config_dict(config, form)
+                if frontend == "qcconfig_bare":
+                    cd = cd["contexts"][0]["streams"][sid]          # {module: {test: kwargs}}
+                qc = qc_config.QcConfig(cd, default_stream_key=sid)
                 kw = {"inp": fl(table["data"][sid])}
                 if has_time(table):
                     kw["tinp"] = times(table)
@@ -359,12 +377,12 @@ def run_frontend(frontend, table, config, workdir, form="iso", max_orders=3, rng
         first = False
         merge = k_od % 2 == 1
         try:
-            lst = collect_results(feed(od, merge), how="list")
+            lst = collect_results(feed(od, merge), how=("list" if k_od % 3 else list))
             for cr in lst:
                 c["accL"].append({"stream": cr.stream_id, "fn": fn_of(cr.package, cr.test), "flags": absflags(cr.results),
                                   "data": absarr(cr.data), "t": absarr(cr.tinp), "z": absarr(cr.zinp),
                                   "lat": absarr(cr.lat), "lon": absarr(cr.lon)})
-            dct = collect_results(feed(od, merge), how="dict")
+            dct = collect_results(feed(od, merge), how=("dict" if k_od % 3 else dict))
             for sid, mods in dct.items():
                 for mod, tests in mods.items():
                     for t, v in tests.items():
